@@ -296,6 +296,107 @@ pub fn literals() -> Vec<Lit> {
             out.push(dur(vec!["T".into(), "#".into(), v.to_string(), u.to_string()], ns, format!("duration/large/{}{}", mname, u)));
         }
     }
+    // every duration body up to length 5 over the characters a duration is made of, judged by a reference
+    // recogniser written from B.1.2.3.1 (what is a duration has its exact value)
+    {
+        /// integer ::= digit {['_'] digit}; returns the digits without underscores
+        fn integer(b: &[u8], i: &mut usize) -> Option<String> {
+            let mut d = String::new();
+            if *i >= b.len() || !b[*i].is_ascii_digit() {
+                return None;
+            }
+            d.push(b[*i] as char);
+            *i += 1;
+            loop {
+                if *i < b.len() && b[*i].is_ascii_digit() {
+                    d.push(b[*i] as char);
+                    *i += 1;
+                } else if *i + 1 < b.len() && b[*i] == b'_' && b[*i + 1].is_ascii_digit() {
+                    d.push(b[*i + 1] as char);
+                    *i += 2;
+                } else {
+                    return Some(d);
+                }
+            }
+        }
+        /// (value in ns, number of units) of a duration body, None when it is no duration
+        fn duration(body: &str) -> Option<(i128, usize)> {
+            let b = body.as_bytes();
+            let mut i = 0;
+            let neg = b.first() == Some(&b'-');
+            if neg {
+                i = 1;
+            }
+            let unit_ns: [(&str, i128); 5] = [("d", 86_400_000_000_000), ("h", 3_600_000_000_000), ("m", 60_000_000_000), ("s", 1_000_000_000), ("ms", 1_000_000)];
+            let mut next_unit = 0usize;
+            let mut total: i128 = 0;
+            let mut count = 0;
+            loop {
+                let whole = integer(b, &mut i)?;
+                let mut frac = String::new();
+                if i < b.len() && b[i] == b'.' {
+                    i += 1;
+                    frac = integer(b, &mut i)?;
+                }
+                // unit: "ms" before "m"
+                let rest = &body[i..];
+                let u = (next_unit..5).find(|u| {
+                    let name = unit_ns[*u].0;
+                    rest.starts_with(name) && !(name == "m" && rest.starts_with("ms"))
+                })?;
+                i += unit_ns[u].0.len();
+                let scale = unit_ns[u].1;
+                total = total.checked_add(whole.parse::<i128>().ok()?.checked_mul(scale)?)?;
+                if !frac.is_empty() {
+                    let num = frac.parse::<i128>().ok()?.checked_mul(scale)?;
+                    let den = 10i128.checked_pow(frac.len() as u32)?;
+                    if num % den != 0 {
+                        return None; // finer than a nanosecond: not in this sweep
+                    }
+                    total = total.checked_add(num / den)?;
+                }
+                count += 1;
+                next_unit = u + 1;
+                if i == b.len() {
+                    return Some((if neg { -total } else { total }, count));
+                }
+                if !frac.is_empty() {
+                    return None; // only the last part may have a fraction
+                }
+                if b[i] == b'_' {
+                    i += 1;
+                }
+                if next_unit >= 5 {
+                    return None;
+                }
+            }
+        }
+        let alpha = ['1', '0', '5', '.', '_', '-', 'd', 'h', 'm', 's'];
+        let mut level: Vec<String> = vec![String::new()];
+        for _len in 0..5 {
+            let mut next = Vec::with_capacity(level.len() * alpha.len());
+            for b in &level {
+                for a in alpha {
+                    next.push(format!("{}{}", b, a));
+                }
+            }
+            for body in &next {
+                // bodies that end the literal early and continue with something else legal are not literals of
+                // this sweep: the body must start with a digit or a sign
+                if !(body.starts_with(|c: char| c.is_ascii_digit()) || body.starts_with('-')) {
+                    continue;
+                }
+                // what is no duration is no literal: the property says nothing about it (C04 covers crashes)
+                let (ns, label) = match duration(body) {
+                    Some((v, 1)) => (Some(v), "duration/body-sweep"),
+                    Some((v, _)) => (Some(v), "duration/multi-unit"),
+                    None => continue,
+                };
+                out.push(dur(vec!["T".into(), "#".into(), body.clone()], ns, label.to_string()));
+            }
+            level = next;
+        }
+    }
     // upper-case units and prefixes are covered by C08.
     // ---- time of day
     let tod = |h: u64, m: u64, sec: &str, label: &str, prefix: &str| -> Lit {
@@ -327,6 +428,16 @@ pub fn literals() -> Vec<Lit> {
     out.push(tod(12, 30, "15.5", "fractional-second", "TOD"));
     out.push(tod(12, 30, "15.250", "fractional-second", "TOD"));
     out.push(tod(12, 30, "59.999999", "fractional-second-micro", "TOD"));
+    // every fraction of one to six digits with a single non-zero digit, and a few mixed ones
+    for digits in 1..=6usize {
+        for pos in 0..digits {
+            let f: String = (0..digits).map(|i| if i == pos { '5' } else { '0' }).collect();
+            out.push(tod(12, 30, &format!("15.{}", f), "fractional-second-digits", "TOD"));
+        }
+    }
+    for f in ["0625", "1234", "123456", "000001", "100001", "909090"] {
+        out.push(tod(12, 30, &format!("15.{}", f), "fractional-second-digits", "TOD"));
+    }
     // ---- dates
     let days_in = |y: u64, m: u64| -> u64 {
         match m {
@@ -410,6 +521,9 @@ pub fn literals() -> Vec<Lit> {
     out.push(dt(2021, 6, 15, 12, 30, "60", "second=max+1", "DT"));
     out.push(dt(2021, 6, 15, 12, 30, "300", "second=300", "DT"));
     out.push(dt(2021, 6, 15, 12, 30, "15.5", "fractional-second", "DT"));
+    for f in ["05", "005", "0625", "1234", "123456", "000001", "999999"] {
+        out.push(dt(2021, 6, 15, 12, 30, &format!("15.{}", f), "fractional-second-digits", "DT"));
+    }
     // ---- strings
     for (label, body) in [("empty", ""), ("ascii", "hello world"), ("other-quote", "say \"hi\""), ("two-byte", "Z\u{e4}hler"), ("three-byte", "5 \u{20ac}"), ("four-byte", "\u{1F600} ok"), ("punctuation", "a;b:=c(*d*)")] {
         for prefix in [false, true] {
